@@ -9,6 +9,7 @@ import "golang.org/x/net/internal/zzverif/vx"
 func c11cliRunParts(c *vx.Ctx) {
 	c.Rule("EV, client part: Transport with per-stream receive window 8 or 600 (stream boundary) or connection receive buffer 65535 (window 131070) pre-filled by seven 16384-byte frames (connection boundary); every event sequence of depth 1..D after the seed over {REQ (<=2 GETs), response HEADERS, unpadded DATA(stream, len = w-1 | w | w+1 relative to the monitor's current min(stream, connection) window w, and len 1, 0), in the */padded parts also PADDED DATA whose whole frame payload is w-1 | w | w+1 with pad-length byte + padding = 1 | 3 | 256 bytes of it and fixed 1-byte-payload frames with pad length 1 | 255 (same alphabet as the server part), application Read(n), Body.Close}; the monitor debits the whole frame payload; an out-of-window frame ends the sequence; oracle: DATA inside both advertised windows is never answered with FLOW_CONTROL_ERROR and is delivered to Response.Body in order (final drain); DATA beyond a window is answered with GOAWAY or RST_STREAM carrying FLOW_CONTROL_ERROR and Reads never return more than the in-window prefix")
 	c.Rule("EV, client part, */prefilled-other-stream/* parts (connection window on streams that take no DATA): connection window 131070 pre-filled to 16382 by seven unread 16384-byte frames on stream 3 while stream 1 has no response yet (part cancel) or had its response body closed, i.e. was reset and forgotten by the Transport (part body-closed); every event sequence of depth 1..D after the seed over {response HEADERS, fixed DATA of 4 bytes (also on closed streams) | 1 | 0 | 0 with END_STREAM, DR as above on open streams, DRC(stream, len = w-1 | w | w+1 relative to the monitor's current CONNECTION window w alone) on a stream the client opened that takes no DATA (any more): cancelled or body closed or reset by the client for a protocol error (in-flight DATA after the client's RST_STREAM, legal by RFC 9113 5.1), before the response HEADERS, after END_STREAM, after the server's own RST_STREAM, application Read(n), Body.Close, request cancel, server RST_STREAM}; oracle: a DRC frame beyond the connection window on a stream the client has reset is answered with FLOW_CONTROL_ERROR (GOAWAY, read-loop error, or RST_STREAM of that stream); on a stream where the frame also violates the stream state machine (before HEADERS, after END_STREAM, after the server's RST_STREAM) any connection error is accepted, a connection that carries on is not; a DRC frame inside the connection window and the stream's last advertised window is never answered with FLOW_CONTROL_ERROR (the monitor credits the WINDOW_UPDATEs that return the discarded bytes, so later frames are sized against the refunded window)")
+	c.Rule("EV, client part, advertised windows and aggregate parts: the windows the monitor holds the Transport to are derived from the wire alone, connection = protocol default 65535 + every WINDOW_UPDATE(0) the client sent (the preface one included), stream = the client's SETTINGS_INITIAL_WINDOW_SIZE + WINDOW_UPDATE(stream), minus the whole payload of every DATA frame sent; configuration only sizes the generator's pruning model. Parts cli/conn131070-str70000/* and cli/conn131070-str65535/*: connection receive buffer 65535 (advertised window 131070) with per-stream windows of 70000 or 65535, so the connection window is reachable only by the aggregate of unread DATA on two streams (2 x 65535 fills it to exactly 0 together with both stream windows); seeds pre-fill both streams with 16384-byte frames (4+3, resp. 3+3) that nobody reads, then every sequence of depth 1..D over the unpadded alphabet above (DR = w-1 | w | w+1 relative to the smaller of the stream's and the connection's advertised window, Read, Body.Close); part */two-responses has no pre-filling seed and no Read/Close at all (no refunds): every interleaving of full 16384-byte DATA frames on the two streams plus the boundary-relative frames once the smaller window is within one frame, up to the depth that reaches and crosses the advertised connection window (8 frames). Oracle addition for every client part: a DATA frame inside both advertised windows must not make the Transport fail the connection with FLOW_CONTROL_ERROR either (the Transport does not flush its GOAWAY, so the error its read loop ended with, which fails every in-flight request, is consulted in addition to the wire)")
 	small := c09cliCfg{StrWin: 8}
 	connB := c09cliCfg{ConnWin: 65535}
 	pre := "D(1,16384,0,0)"
@@ -39,12 +40,33 @@ func c11cliRunParts(c *vx.Ctx) {
 	// streams; D(s,0,0,1) ends the response (empty DATA + END_STREAM).
 	dClosed := [][3]int64{{4, 0, 0}, {1, 0, 0}, {0, 0, 0}, {0, 0, 1}}
 	aClosed := c11cliClosedAlphabet(resp, dClosed, []int64{1, 100, 20000}, []string{"C", "CANCEL", "RST"}, rel)
+	// Connection window reachable only by the aggregate of unread DATA on several
+	// streams: per-stream windows smaller than the connection window, nobody
+	// reads unless an R/C event says so (no refunds otherwise).
+	//  - stream 70000 (2 x 70000 > 131070): after the seed (4 + 3 frames of 16384)
+	//    stream 1 has 4464 left, stream 3 20848, the connection 16382: on stream 3
+	//    the connection window is the smaller one, on stream 1 the stream window.
+	//  - stream 65535 (2 x 65535 == 131070): after the seed (3 + 3 frames) each
+	//    stream has 16383 left and the connection 32766, so filling both streams
+	//    fills the advertised connection window to exactly 0.
+	aggA := c09cliCfg{ConnWin: 65535, StrWin: 70000}
+	aggB := c09cliCfg{ConnWin: 65535, StrWin: 65535}
+	pre3 := "D(3,16384,0,0)"
+	// no prefilling seed, nobody reads: every interleaving of full 16384-byte
+	// frames on the two streams, boundary-relative frames once the smaller of
+	// the two windows is within one frame
+	aAgg := c10cliAlphabet(nil, nil, [][3]int64{{16384, 0, 0}}, nil, nil, rel)
+	seedAggA := []string{"REQ(0)", "REQ(0)", "RESP(1,-1,0)", "RESP(3,-1,0)", pre, pre3, pre, pre3, pre, pre3, pre}
+	seedAggB := []string{"REQ(0)", "REQ(0)", "RESP(1,-1,0)", "RESP(3,-1,0)", pre, pre3, pre, pre3, pre, pre3}
 	var parts []c10cliPart
 	if c.Quick() {
 		parts = []c10cliPart{
 			{"cli/win8/one-response", small, seedStream, aSmall, 5},
 			{"cli/conn131070/prefilled", connB, seedConn, aConn, 4},
 			{"cli/conn131070/prefilled-two-streams", connB, seedConn2, aConn, 3},
+			{"cli/conn131070-str70000/prefilled-two-streams", aggA, seedAggA, aConn, 3},
+			{"cli/conn131070-str65535/prefilled-two-streams", aggB, seedAggB, aConn, 3},
+			{"cli/conn131070-str70000/two-responses", aggA, seedAggA[:4], aAgg, 8},
 			{"cli/conn131070/prefilled-other-stream/cancel", connB, seedOther, aClosed, 3},
 			{"cli/conn131070/prefilled-other-stream/body-closed", connB, seedClosed, aClosed, 3},
 			{"cli/win8/one-response/padded", small, seedStream, pSmall, 4},
@@ -58,6 +80,9 @@ func c11cliRunParts(c *vx.Ctx) {
 			{"cli/win8/one-response", small, seedStream, aSmall, 6},
 			{"cli/conn131070/prefilled", connB, seedConn, aConn, 5},
 			{"cli/conn131070/prefilled-two-streams", connB, seedConn2, aConn, 4},
+			{"cli/conn131070-str70000/prefilled-two-streams", aggA, seedAggA, aConn, 4},
+			{"cli/conn131070-str65535/prefilled-two-streams", aggB, seedAggB, aConn, 4},
+			{"cli/conn131070-str70000/two-responses", aggA, seedAggA[:4], aAgg, 9},
 			{"cli/conn131070/prefilled-other-stream/cancel", connB, seedOther, aClosed, 4},
 			{"cli/conn131070/prefilled-other-stream/body-closed", connB, seedClosed, aClosed, 5},
 			{"cli/win8/one-response/padded", small, seedStream, pSmall, 5},
